@@ -58,3 +58,26 @@ func init() {
 		return GenOpts{Funcs: true, Effects: true, Slices: true, Strings: true, MaxDepth: 3 + r.Intn(3), MaxStmts: 3 + r.Intn(4)}
 	})
 }
+
+// typed-mutants (C06): unsafe-mode programs; those flagged mutated_invalid carry exactly one ill-typed or
+// ill-scoped position and must be rejected, all others must be accepted.
+func init() {
+	streams["typed-mutants"] = func(r *rand.Rand, n int, g *genOut) {
+		acc, rej := 0, 0
+		for i := 0; i < n; i++ {
+			o := GenOpts{Funcs: r.Intn(2) == 0, Slices: r.Intn(2) == 0, Strings: r.Intn(2) == 0, MaxDepth: 2 + r.Intn(3), MaxStmts: 2 + r.Intn(4)}
+			src, fs := GenProgram(r, o)
+			f := progFields("main.tsh", map[string]string{"main.tsh": src}, false)
+			id := g.addCase("emit", f...)
+			if fs["mutated_invalid"] > 0 {
+				g.addExpect("emit", id, "reject")
+				rej++
+			} else {
+				g.addExpect("emit", id, "accept")
+				acc++
+			}
+		}
+		g.meta["typed_mutants_valid"] = acc
+		g.meta["typed_mutants_invalid"] = rej
+	}
+}
